@@ -77,7 +77,7 @@ func (s *session) differ(key, what string) {
 		return
 	}
 	s.degraded = true
-	s.c.Violation(s.tag+key, what, s.witness())
+	s.c.Violation(s.tag+"bookkeeping:"+key, what, s.witness())
 }
 
 // note records a property-level violation that does not make further observation meaningless: the session
